@@ -382,3 +382,151 @@ def rule_comment_kind(repo, res):
                                    "preservation state", ok=not any(f.rule == "COMMENT-KIND" for f in res.findings))
     res.floor("COMMENT-KIND combinations explored", n_cases, 40)
     res.floor("COMMENT-KIND grammars with distinct comment tables", n_grammars, 2)
+
+
+def _grammar_setups(repo, distinct):
+    """(gcls, grammar instance, Sim, Preserve enum, c_info) per grammar class whose *distinct(g)* key was not seen yet"""
+    mod = repo.module("lexer")
+    for need in ("lex_char", "_prepare_comment_tuples"):
+        if need not in mod.functions:
+            raise AnalysisError(f"anchor vanished: pvl/lexer.py:{need}")
+    if len(mod.functions["lex_char"].args.args) != 7:
+        raise AnalysisError("lex_char signature changed; the step interpreter needs (char, prev_char, next_char, lexeme, preserve, g, c_info)")
+    seen = set()
+    for gcls in tables.grammar_classes(repo):
+        g = tables.grammar_instance(repo, gcls)
+        k = distinct(g)
+        if k in seen:
+            continue
+        seen.add(k)
+        sim = Sim(repo)
+        enum_cls = sim.globals.get("Preserve")
+        if enum_cls is None or not all(hasattr(enum_cls, m) for m in ("COMMENT", "FALSE", "UNIT", "QUOTE", "NONDECIMAL")):
+            raise AnalysisError("anchor vanished: the Preserve enum of pvl/lexer.py (FALSE, COMMENT, UNIT, QUOTE, NONDECIMAL)")
+        try:
+            c_info = sim.call("_prepare_comment_tuples", (g.comments,), {})
+        except AnalysisError:
+            raise
+        except Exception as x:
+            raise AnalysisError(f"_prepare_comment_tuples could not be interpreted for {gcls}: {type(x).__name__} {x}")
+        yield gcls, g, sim, enum_cls, c_info
+
+
+def rule_preserve_kind(repo, res):
+    """PRESERVE-KIND / ENTER-KIND: the transition table of the lexer's preservation states, explored on the step
+    function for every grammar's tables.
+
+    PRESERVE-KIND: in the states QUOTE (end = either quote character), UNIT (end = the closing units delimiter) and
+    NONDECIMAL (end = '#') every character -- comment delimiters, the other quote, units delimiters, white space, line
+    ends, reserved characters, '#', an ordinary one -- is appended to the lexeme verbatim, and the state changes (to
+    FALSE) exactly when the character is the state's own end character.
+
+    ENTER-KIND: outside any state, a quote character opens QUOTE ending with the same character, the opening units
+    delimiter opens UNIT ending with the closing one, a single-character comment opener (after white space or at the
+    start) opens COMMENT ending with its own closer; white space of the grammar is not added to the lexeme; any other
+    character is appended and leaves the state alone."""
+    n_cases = 0
+    n_g = 0
+    for gcls, g, sim, E, c_info in _grammar_setups(repo, lambda g: (tuple(map(tuple, g.comments)), tuple(g.quotes),
+                                                                        tuple(g.units_delimiters), tuple(g.whitespace),
+                                                                        tuple(g.reserved_characters))):
+        n_g += 1
+        comments = tuple(tuple(p) for p in g.comments)
+        special = sorted({ch for pair in comments for d in pair for ch in d} | set(g.quotes) | set(g.units_delimiters)
+                         | {"#", " ", "\n", "\t", "=", ",", "(", ")", "{", "}", ";", "-", "+"} | set(g.reserved_characters))
+        other = next(c for c in "xyzw" if c not in special)
+        probe = special + [other]
+        states = [(E.QUOTE, q) for q in g.quotes] + [(E.UNIT, g.units_delimiters[1]), (E.NONDECIMAL, "#")]
+        bad_p = []
+        for (st, end) in states:
+            for char in probe:
+                for prev, nxt in ((other, other), (None, other), (other, None), ("*", "/"), ("/", "*")):
+                    lexeme = other + (prev or "")
+                    sim.steps = 0
+                    n_cases += 1
+                    try:
+                        out = sim.call("lex_char", (char, prev, nxt, lexeme, {"state": st, "end": end}, g, c_info), {})
+                    except AnalysisError:
+                        raise
+                    except SimRaise as x:
+                        bad_p.append((st, end, char, f"raises {x.cls}"))
+                        continue
+                    except (TypeError, AttributeError, KeyError, IndexError) as x:
+                        bad_p.append((st, end, char, f"raises {type(x).__name__}"))
+                        continue
+                    except Exception as x:
+                        raise AnalysisError(f"PRESERVE-KIND: lex_char could not be interpreted ({type(x).__name__}: {x})")
+                    lex2, pres2 = out
+                    want_state = (E.FALSE, None) if char == end else (st, end)
+                    got_state = (pres2.get("state"), pres2.get("end"))
+                    if lex2 != lexeme + char:
+                        bad_p.append((st, end, char, f"the lexeme becomes {lex2!r} instead of {lexeme + char!r}"))
+                    elif got_state != want_state:
+                        bad_p.append((st, end, char, f"the state becomes {getattr(got_state[0], 'name', got_state[0])}/{got_state[1]!r}"))
+        shown = set()
+        for (st, end, char, what) in bad_p:
+            k = (st, end, what.split(" ")[0], char)
+            if k in shown:
+                continue
+            shown.add(k)
+            res.add(Finding("PRESERVE-KIND", "lexer.lex_char", f"in state {st.name} (end {end!r}) the character {char!r}: {what.split(' instead')[0][:40]}",
+                            f"with {gcls}, inside a {st.name.lower()} that ends with {end!r} the character {char!r} is not simply kept: {what}. "
+                            "Text inside quotes / units / a based integer is changed or cut by what it contains", witness=other + char,
+                            where="pvl/lexer.py"))
+        res.oblige("PRESERVE-KIND", f"{gcls}: in QUOTE / UNIT / NONDECIMAL every one of {len(probe)} probe characters is kept verbatim and "
+                                    "only the state's own end character closes it", ok=not bad_p)
+        # ENTER-KIND
+        bad_e = []
+        singles = {p[0]: p[1] for p in comments if len(p[0]) == 1}
+        multi_chars = {ch for p in comments if len(p[0]) > 1 for d in p for ch in d}
+        for char in probe:
+            if char in multi_chars:
+                continue                 # multi-character openers depend on the neighbours: COMMENT-KIND / TB3 look at them
+            if char == "#":
+                lexemes = ("",)          # after digits '#' may open a based integer: TB8 / LEX1 decide that
+            else:
+                lexemes = ("", other)
+            for lexeme in lexemes:
+                prev = " " if lexeme == "" else other
+                sim.steps = 0
+                n_cases += 1
+                try:
+                    out = sim.call("lex_char", (char, prev, other, lexeme, {"state": E.FALSE, "end": None}, g, c_info), {})
+                except AnalysisError:
+                    raise
+                except (SimRaise, TypeError, AttributeError, KeyError, IndexError) as x:
+                    bad_e.append((char, f"lex_char raises {getattr(x, 'cls', type(x).__name__)}"))
+                    continue
+                except Exception as x:
+                    raise AnalysisError(f"ENTER-KIND: lex_char could not be interpreted ({type(x).__name__}: {x})")
+                lex2, pres2 = out
+                got = (pres2.get("state"), pres2.get("end"))
+                if char in g.quotes:
+                    want, wl = (E.QUOTE, char), lexeme + char
+                elif char == g.units_delimiters[0]:
+                    want, wl = (E.UNIT, g.units_delimiters[1]), lexeme + char
+                elif char in singles and lexeme == "":
+                    want, wl = (E.COMMENT, singles[char]), lexeme + char
+                elif char in singles:
+                    continue             # inside a word: the grammar's own rule (set off by white space) -- not decided here
+                elif char in g.whitespace:
+                    want, wl = (E.FALSE, None), lexeme
+                else:
+                    want, wl = (E.FALSE, None), lexeme + char
+                if got != want:
+                    bad_e.append((char, f"the state after it is {getattr(got[0], 'name', got[0])}/{got[1]!r}, expected {want[0].name}/{want[1]!r}"))
+                elif lex2 != wl:
+                    bad_e.append((char, f"the lexeme becomes {lex2!r}, expected {wl!r}"))
+        shown = set()
+        for (char, what) in bad_e:
+            if char in shown:
+                continue
+            shown.add(char)
+            res.add(Finding("ENTER-KIND", "lexer.lex_char", f"outside any state, the character {char!r}",
+                            f"with {gcls}, outside any preservation state the character {char!r}: {what}. Quotes, units expressions, "
+                            "line comments and white space are not delimited as the grammar's tables say", witness=char, where="pvl/lexer.py"))
+        res.oblige("ENTER-KIND", f"{gcls}: quotes open QUOTE ending with the same quote, {g.units_delimiters[0]!r} opens UNIT ending with "
+                                 f"{g.units_delimiters[1]!r}, line-comment openers open COMMENT with their own end, white space is dropped, "
+                                 "other characters are appended", ok=not bad_e)
+    res.floor("PRESERVE-KIND / ENTER-KIND transitions explored", n_cases, 200)
+    res.floor("grammars with distinct lexer tables", n_g, 2)
